@@ -199,11 +199,15 @@ type C16R struct {
 }
 
 type C16St struct {
-	K    string `json:"k"` // where | oc | attrs | assign | session | ctx | model | select | omit
+	K    string `json:"k"` // where | oc | attrs | assign | session | ctx | model | select | omit | selstar | omitassoc | sess | table
 	W    *C16W  `json:"w,omitempty"`
 	Init *C16I  `json:"init,omitempty"`
 	Rule *C16R  `json:"rule,omitempty"`
 	Cols []int  `json:"cols,omitempty"` // select | omit: the columns named
+	// Sp: how select / omit spell a column — 0 database name, 1 Go field name, 2 table-qualified `tbl.col`
+	Sp int `json:"sp,omitempty"`
+	// Flag: the Session field set by a `sess` step (skiphooks | fullsave | skiptx | prepare | batch | queryfields | global)
+	Flag string `json:"flag,omitempty"`
 }
 
 // finishers:
@@ -217,6 +221,8 @@ type C16F struct {
 	Inl  *C16W   `json:"inl,omitempty"`
 	Cols []int   `json:"cols,omitempty"`
 	Many [][]int `json:"many,omitempty"`
+	// Self (save / save2): db.Model(&v).Save(&v)
+	Self bool `json:"self,omitempty"`
 }
 
 type C16P struct {
@@ -465,10 +471,18 @@ func (e *c16Env) chain(h *gorm.DB, soft bool, steps []C16St) *gorm.DB {
 			h = h.WithContext(WithMarker(context.Background(), "c16"))
 		case "model":
 			h = h.Model(c16Mk(soft, make([]int, c16N(soft))))
+		case "selstar":
+			h = h.Select("*")
+		case "omitassoc":
+			h = h.Omit(clause.Associations)
+		case "table":
+			h = h.Table(c16Table(soft))
+		case "sess":
+			h = h.Session(c16SessionOf(s.Flag))
 		case "select", "omit":
 			names := make([]interface{}, len(s.Cols))
 			for i, c := range s.Cols {
-				names[i] = c16Cols[c]
+				names[i] = c16Spell(c, s.Sp, soft)
 			}
 			if s.K == "select" {
 				h = h.Select(names[0], names[1:]...)
@@ -516,10 +530,16 @@ func (e *c16Env) finisher(h *gorm.DB, soft bool, f *C16F) (dest interface{}, res
 	switch f.K {
 	case "save":
 		dest = c16Mk(soft, f.Row)
+		if f.Self {
+			h = h.Model(dest)
+		}
 		res = h.Save(dest)
 	case "save2":
 		// db.Save(&v); db.Save(&v) — judged by the reference of ONE Save (idempotence)
 		dest = c16Mk(soft, f.Row)
+		if f.Self {
+			h = h.Model(dest)
+		}
 		if res = h.Save(dest); res.Error == nil {
 			res = h.Save(dest)
 		}
@@ -706,7 +726,7 @@ func c16StepsJ(in []C16St) (steps []interface{}, sel, omit []int) {
 	for i := range in {
 		s := &in[i]
 		switch s.K {
-		case "model":
+		case "model", "selstar", "omitassoc", "sess", "table":
 		case "select": // chainable_api.go Select / Omit REPLACE Statement.Selects / Omits
 			sel = append([]int{}, s.Cols...)
 		case "omit":
@@ -764,6 +784,9 @@ func c16RowsJ(in [][]int) []interface{} {
 }
 
 func (p *C16P) leanOp() []interface{} {
+	if m := p.mods(); p.Fin.K == "save" && m.any {
+		return []interface{}{"c16.save", c16Kinds(p.Soft), c16RowsJ(p.Rows), c16NextOf(p.Rows), c16ModsJ(m), p.Fin.Row}
+	}
 	steps, sel, omit := c16StepsJ(p.Steps)
 	return []interface{}{"c16.run", "gen", c16Kinds(p.Soft), c16RowsJ(p.Rows), c16NextOf(p.Rows), steps, p.Fin.J(sel, omit)}
 }
@@ -924,6 +947,9 @@ func c16GenLogicalOn(rng *rand.Rand, rich bool, soft bool, rows [][]int) *C16P {
 		p.Fin = C16F{K: "save", Row: c16GenRow(rng, p.Soft, rng.Intn(c16Keys+1))}
 		if !rich && rng.Intn(2) == 0 {
 			p.Fin.K = "save2"
+		}
+		if rng.Intn(3) != 0 {
+			c16GenSaveMods(rng, p, rich)
 		}
 	case k < 5:
 		p.Fin = C16F{K: "create", Row: c16GenRow(rng, p.Soft, rng.Intn(c16Keys+2))}
@@ -1143,17 +1169,18 @@ func c16Branch(p *C16P) string {
 	switch p.Fin.K {
 	case "save", "save2":
 		k := p.Fin.Row[0]
+		md := c16SaveBranch(p)
 		if k == 0 {
-			return p.Fin.K + "/zero-key-insert"
+			return p.Fin.K + md + "/zero-key-insert"
 		}
 		old, ok := t.rows[k]
 		switch {
 		case !ok:
-			return p.Fin.K + "/absent-upsert-inserts"
+			return p.Fin.K + md + "/absent-upsert-inserts"
 		case t.live(old):
-			return p.Fin.K + "/live-update-all"
+			return p.Fin.K + md + "/live-update-all"
 		}
-		return p.Fin.K + "/soft-deleted-upsert-updates"
+		return p.Fin.K + md + "/soft-deleted-upsert-updates"
 	case "cmap", "cmaps", "cslice", "sslice":
 		return c16PartialBranch(p)
 	case "create":
@@ -1510,7 +1537,11 @@ func c16RefRun(p *C16P) C16O {
 	}
 	switch p.Fin.K {
 	case "save", "save2":
-		rec, errc = t.save(p.Fin.Row)
+		if m := p.mods(); m.any {
+			rec, errc = t.saveMods(p.Fin.Row, m)
+		} else {
+			rec, errc = t.save(p.Fin.Row)
+		}
 	case "create":
 		rec, errc = t.createIns(p.Fin.Row, ins, rule)
 	case "cmap":
